@@ -16,8 +16,8 @@ CHECK = {
            'distinct_nontrivial = states holding a duplicate value or (Array) spare capacity; ladders cover capacity arithmetic to length 300'),
   'bounds': {
     'quick': 'length <= 6 (Array white-box, List, Tuple; gcc), <= 5 black-box Array, <= 4 under ASan+UBSan; alphabet 189-273 operations incl. '
-             'every in-range positive and negative index and concat/assign with all 13 sequences of length <= 2 as Array, List and Tuple; ladders to 300 (150 under ASan)',
-    'thorough': 'length <= 8 (Array), <= 9 (List, Tuple), <= 6 black-box, <= 7 under ASan+UBSan; ladders to 1000 / 600 (300 under ASan)',
+             'every in-range positive and negative index and concat/assign with all 13 sequences of length <= 2 as Array, List and Tuple; ladders to 300 (150 under ASan); plain-struct elements length <= 4 (<= 3 under ASan)',
+    'thorough': 'length <= 8 (Array), <= 9 (List, Tuple), <= 6 black-box, <= 7 under ASan+UBSan; ladders to 1000 / 600 (300 under ASan); plain-struct elements length <= 5 / 6 (<= 4 under ASan)',
   },
   'assumptions': [
     'element values beyond {0,1,2} are represented by the universe (the containers look at elements only through assign, eq and lt)',
@@ -42,6 +42,11 @@ CHECK = {
     'child, 3 s limit, label .../from-tuple-with-repeated-object/does-not-terminate); concat from such a Tuple iterates it and hangs on the pinned tree (D16 family) and is not offered',
     'for element types that own resources (Probe, Picky, String) the Array state also carries the number of vacated spare slots and what the last removal left there '
     '(tracked in the model: the bytes of a grown store are uninitialised and cannot be read deterministically), so reuse of a vacated slot without growth is explored from every such state',
+    'plain user structs without any instance as elements (elem=plain: 16 bytes, elem=plain12: 12 bytes, values compared by memory): the whole alphabet, plus objects of '
+    'four other plain types (same size; 12 bytes = same rounded Array slot; 24 bytes; the other element type) and Ints handed to push/append/set/push_at and as the elements of a concat '
+    'source (Array, List, Tuple): each call must raise TypeError (ValueError accepted) and leave contents and len alone - silent success is never accepted; assign from an Array/List '
+    'of another plain type converts the element type like every cross-type assign and is judged on a copy of A (iter_type, len, element types and bytes are the source\'s)',
+    'in every state of every Array/List instance iter_type(A) is the element type the container was built with and every element handed out by forward iteration (all oracle modes) and by get() (full oracle) carries that type in its header',
     'a Tuple holding the same object twice is a separate opt-in dimension (instance tuple-same-object, known defect D16 of C11)',
     'white-box view obtained by compiling the repository\'s own Array.c and List.c into the harness; one instance runs black-box',
     'gcc/clang, glibc and the sanitizer run-times are trusted',
@@ -67,6 +72,12 @@ CHECK = {
       S('array-str4', 'base', 'kind=array', 'elem=str', 'maxlen=4'),
       S('array-str4-asan', 'asan', 'kind=array', 'elem=str', 'maxlen=4'),
       S('list-str3-asan', 'asan', 'kind=list', 'elem=str', 'maxlen=3'),
+      # plain user structs without any instance (default memcpy assign / memcmp cmp): 16 bytes and 12 bytes (Array slot rounded to 16);
+      # the whole alphabet over them, objects of other plain types (same size / same rounded slot / another size) and Ints refused as
+      # elements and as concat sources, converting assign on a copy; in every state every element carries iter_type(A)
+      S('array-plain4', 'base', 'kind=array', 'elem=plain', 'maxlen=4'),
+      S('list-plain4', 'base', 'kind=list', 'elem=plain', 'maxlen=4'),
+      S('array-plain12-3-asan', 'asan', 'kind=array', 'elem=plain12', 'maxlen=3'),
       # sort ladder: all permutations to length 8, enumerated families to length 64, sort() and sort_by(gt)
       S('sortladder-array', 'base', 'mode=sortladder', 'kind=array', 'sort_n=64'),
       S('sortladder-tuple', 'base', 'mode=sortladder', 'kind=tuple', 'sort_n=64'),
@@ -94,6 +105,12 @@ CHECK = {
       S('array-str6', 'base', 'kind=array', 'elem=str', 'maxlen=6'),
       S('array-str5-asan', 'asan', 'kind=array', 'elem=str', 'maxlen=5'),
       S('list-str5-asan', 'asan', 'kind=list', 'elem=str', 'maxlen=5'),
+      S('array-plain5', 'base', 'kind=array', 'elem=plain', 'maxlen=5'),
+      S('array-plain12-5', 'base', 'kind=array', 'elem=plain12', 'maxlen=5'),
+      S('list-plain6', 'base', 'kind=list', 'elem=plain', 'maxlen=6'),
+      S('list-plain12-5', 'base', 'kind=list', 'elem=plain12', 'maxlen=5'),
+      S('array-plain12-4-asan', 'asan', 'kind=array', 'elem=plain12', 'maxlen=4'),
+      S('list-plain4-asan', 'asan', 'kind=list', 'elem=plain', 'maxlen=4'),
       S('sortladder-array', 'base', 'mode=sortladder', 'kind=array', 'sort_n=100', 'perm_n=9', 'bits_n=14'),
       S('sortladder-tuple', 'base', 'mode=sortladder', 'kind=tuple', 'sort_n=100', 'perm_n=9', 'bits_n=14'),
       S('sortladder-array-asan', 'asan', 'mode=sortladder', 'kind=array', 'sort_n=64'),
